@@ -43,11 +43,11 @@ ASSUMPTIONS = [
 MINIMUMS = {
     'quick': {'evaluations': 3000, 'runs_with_preemption': 3000, 'preempt_in:building.py': 50,
               'preempt_in:history.py': 50, 'preempt_in:signatures.py': 50,
-              'preempt_in:reraised_exception.py': 10, 'free_running_rounds': 20, 'context_copying_launcher_runs': 5, 'pairs_enumerated': 49},
+              'preempt_in:reraised_exception.py': 10, 'free_running_rounds': 20, 'context_copying_launcher_runs': 5, 'pairs_enumerated': 64},
     'thorough': {'evaluations': 1000},
 }
 
-PROGRAMS = ['P1', 'P2', 'P3', 'P4', 'P5', 'P6', 'P7']
+PROGRAMS = ['P1', 'P2', 'P3', 'P4', 'P5', 'P6', 'P7', 'P9']
 
 
 def plan(tier):
@@ -89,6 +89,8 @@ class Env:
     exec(src, ns)  # pylint: disable=exec-used
     self.fresh_fn = ns['fresh_target']
     self.exc_cls = type('FreshError', (ValueError,), {})
+    # a plain subclass of a builtin type: inspect.signature() rejects it, fiddle falls back
+    self.fresh_dict_cls = type('FreshSettings', (dict,), {})
     self.histories = []       # (thread label, [sequence ids in append order per key])
 
 
@@ -179,8 +181,12 @@ def P5(env, label):
             for c in (cfg, p)]
     tagged = fdl.Config(env.fresh_fn)
     fdl.set_tagged(tagged, tag=vtags.TagA, value=label)
+    try:      # first-time lookup of a builtin subclass shared by the threads
+      settings = ('ok', sorted(fdl.build(fdl.Config(env.fresh_dict_cls, lr=1, name=label)).items()))
+    except Exception as e:  # pylint: disable=broad-except
+      settings = ('raise', type(e).__name__, str(e)[:80])
     return (out, tuple(cfg[:]), sorted(k for k in dir(cfg)), fdl.build(p)(3), tags,
-            fdl.build(tagged))
+            fdl.build(tagged), settings)
   return prog
 
 
@@ -228,6 +234,30 @@ def P7(env, label):
   return prog
 
 
+@history.suspend_tracking()
+def _decorated_untracked_edit(cfg, v):
+  """ONE decorator object serves every call from every thread."""
+  cfg.x = v
+  cfg.y = (v, v)
+
+
+def P9(env, label):
+  def prog():
+    cfg = fdl.Config(kinds.two)
+    cfg.x = 0                                   # tracked
+    _decorated_untracked_edit(cfg, label)        # untracked, entered with tracking ON
+    cfg.y = 'after'                              # tracked
+    with history.suspend_tracking():
+      _decorated_untracked_edit(cfg, 1)          # untracked, entered with tracking OFF
+      cfg.x = 2                                  # still untracked
+      inside = history.tracking_enabled()
+    cfg.x = 3                                    # tracked
+    env.histories.append((label, collect_ids(cfg)))
+    return (sorted((k, len(v)) for k, v in cfg.__argument_history__.items()), inside,
+            history.tracking_enabled())
+  return prog
+
+
 def P8(env, label):
   def prog():
     # inside suspend_tracking this thread starts a worker the way asyncio.to_thread does
@@ -254,7 +284,7 @@ def P8(env, label):
   return prog
 
 
-FACTORIES = {'P1': P1, 'P2': P2, 'P3': P3, 'P4': P4, 'P5': P5, 'P6': P6, 'P7': P7, 'P8': P8}
+FACTORIES = {'P1': P1, 'P2': P2, 'P3': P3, 'P4': P4, 'P5': P5, 'P6': P6, 'P7': P7, 'P8': P8, 'P9': P9}
 FREE_ONLY = ['P8']        # starts a thread of its own: only in the free-running mode
 
 
@@ -334,6 +364,8 @@ def run_enum1(spec, acc):
     _, na = solo(a, 0)
     solo(b, 1)
     per = spec.get('per_pair')
+    if per is not None and a == 'P5' and b == 'P5':
+      per *= 4      # first-time lookups in shared caches: the windows are a few lines wide
     if per is None or per >= na:
       points = range(1, na + 1)
     else:
